@@ -761,10 +761,15 @@ func poisonBytes(p poison) []byte {
 	case "http2/empty-data-after-end-stream":
 		b := append(h2Preface(), seqFrame(seqStep{Op: "H", Sid: 1, End: true}, false)...)
 		return append(b, seqFrame(seqStep{Op: "D", Sid: 1, N: 0}, false)...)
-	case "http2/data-after-rst-stream":
+	case "http2/abandoned-request-reset-then-data":
 		b := append(h2Preface(), seqFrame(seqStep{Op: "H", Sid: 1}, false)...)
 		b = append(b, seqFrame(seqStep{Op: "R", Sid: 1}, false)...)
 		return append(b, seqFrame(seqStep{Op: "D", Sid: 1, N: 5}, false)...)
+	case "http2/abandoned-request-reset":
+		b := append(h2Preface(), seqFrame(seqStep{Op: "H", Sid: 1}, false)...)
+		return append(b, seqFrame(seqStep{Op: "R", Sid: 1}, false)...)
+	case "http2/abandoned-request-connection-closed":
+		return append(h2Preface(), seqFrame(seqStep{Op: "H", Sid: 1}, false)...)
 	case "http2/data-after-trailers":
 		b := append(h2Preface(), seqFrame(seqStep{Op: "H", Sid: 1}, false)...)
 		b = append(b, seqFrame(seqStep{Op: "T", Sid: 1, End: true}, false)...)
@@ -971,6 +976,7 @@ func runE2E(casesPath, tracePath string) {
 	heldConns := []held{}
 	var wg sync.WaitGroup
 	var lastAlloc uint64
+	var abandonedLeft int64 // active streams already attributed to single poisons
 	runPoison := func(i int, p poison, wait time.Duration, attribute bool) {
 		{
 			a0 := allocated()
@@ -1019,6 +1025,10 @@ func runE2E(casesPath, tracePath string) {
 					c.Write(rawFrame(1, 0x4, 3, len(blk), blk))
 					c.Write(rawFrame(0, 0x1, 3, 2048, bytes.Repeat([]byte("q"), 2048)))
 					res, detail = observeH2(c, wait)
+					if res == "silent" && os.Getenv("C08_DEBUG") != "" {
+						buf := make([]byte, 16<<20)
+						fmt.Fprintf(os.Stderr, "SILENT after %s\n%s\n", p.Name, buf[:runtime.Stack(buf, true)])
+					}
 				} else if p.Proto == "http2" {
 					path := "/badfrm"
 					if strings.Contains(p.Name, "hpack") {
@@ -1111,9 +1121,10 @@ func runE2E(casesPath, tracePath string) {
 		}
 		return ""
 	}
+	abandoned := func(p poison) bool { return strings.HasPrefix(p.Name, "abandoned-request") }
 	batch0 := allocated()
 	for i, p := range menu {
-		if (p.Proto == "http2" && !h2ok) || bodySize(p) != "" {
+		if (p.Proto == "http2" && !h2ok) || bodySize(p) != "" || abandoned(p) {
 			continue
 		}
 		if e2eSequential {
@@ -1145,6 +1156,33 @@ func runE2E(casesPath, tracePath string) {
 			}
 			runPoison(1000+i, p, 1500*time.Millisecond, true)
 		}
+	}
+	// requests that are opened and never completed (reset or connection closed before END_STREAM), one at a time: what
+	// they leave behind is read from the listener's gauge right after each of them
+	for i, p := range menu {
+		if !abandoned(p) || (p.Proto == "http2" && !h2ok) {
+			continue
+		}
+		before := e2e.ListenerGauge(lname[p.Proto], metrics.DownstreamRequestActive)
+		runPoison(3000+i, p, time.Second, false)
+		hmu.Lock()
+		if n := len(heldConns); n > 0 {
+			heldConns[n-1].c.Close()
+			tr.Emit(vh.Ev{"ev": "close", "c": heldConns[n-1].id})
+			heldConns = heldConns[:n-1]
+		}
+		hmu.Unlock()
+		dl := time.Now().Add(3 * time.Second)
+		g := int64(0)
+		for {
+			g = e2e.ListenerGauge(lname[p.Proto], metrics.DownstreamRequestActive) - before
+			if g <= 0 || time.Now().After(dl) {
+				break
+			}
+			time.Sleep(20 * time.Millisecond)
+		}
+		abandonedLeft += g
+		tr.Emit(vh.Ev{"ev": "gauge", "listener": lname[p.Proto], "active": g, "name": p.Name, "proto": p.Proto})
 	}
 	// announced HTTP/1 body sizes at the integer boundaries, one at a time with the heap given back in between: a parser
 	// that reserves the announced size would otherwise take gigabytes at once.  After one such answer of a family
@@ -1212,6 +1250,9 @@ func runE2E(casesPath, tracePath string) {
 		var g int64
 		for {
 			g = e2e.ListenerGauge(lname[proto], metrics.DownstreamRequestActive)
+			if proto == "http2" {
+				g -= abandonedLeft // reported with the poison that left them
+			}
 			if g == 0 || time.Now().After(dl) {
 				break
 			}
